@@ -864,7 +864,8 @@ def _inline_expression_helpers(modules, canon, renamed_new_names,
     for mod, cls, fn, q in cands:
         dunder = fn.name.startswith('__') and fn.name.endswith('__')
         internal = _is_private(fn.name) or (
-            cls is not None and cls.name not in api_classes and not dunder)
+            cls is not None and cls.name not in api_classes and
+            not dunder) or (cls is None and fn.name not in api_classes)
         if q in canon or q in renamed_new_names or not internal or \
                 count[fn.name] != 1 or fn.name in _BUILTIN_METHODS:
             continue
